@@ -179,6 +179,37 @@ def justify(I, ctx, s_err, oks):
             return "token length nibble >= 9"
         if not hdr and l == 15 and h == 15:
             return "reserved nibble 15"
+    # the extension bytes a 13 / 14 nibble announces are not there (the state itself says so: the remaining
+    # input is shorter - e.g. the failed length test of a slice pattern - whatever read would have followed)
+    buf_len = None
+    for sname in s_err.bounds:
+        inf = I.syminfo.get(sname)
+        if inf and inf[0] == "len" and inf[1] == "buf":
+            buf_len = Aff.sym(sname)
+    if buf_len is not None:
+        def src_of(sym):
+            b = I.syminfo[sym][1]
+            return b[0][1]
+        for sym, lo, hdr in nibs:
+            if hdr:
+                continue
+            l, h = s_err.lo_hi(sym)
+            if l != h or l not in (13, 14):
+                continue
+            off = elem_info(I, src_of(sym))[2]
+            need = 1 if l == 13 else 2
+            dexts = [0]
+            if lo == 0:
+                # a length nibble: its extension follows the delta extension of the same header byte
+                sib = [x for x, lo2, _ in nibs if lo2 == 4 and src_of(x) == src_of(sym)]
+                dexts = None
+                if sib:
+                    l2, h2 = s_err.lo_hi(sib[0])
+                    dexts = [0] if h2 <= 12 else [1] if (l2, h2) == (13, 13) else [2] if (l2, h2) == (14, 14) else None
+                if dexts is None:
+                    continue
+            if s_err.entails(off + dexts[0] + need - buf_len):
+                return "the %d extension byte(s) announced by a %s nibble %d are missing from the input" % (need, "length" if lo == 0 else "delta", l)
     # cumulative option number beyond 65535
     import os
     if os.environ.get("VERIF_DEBUG_EDGE"):
@@ -221,7 +252,7 @@ def check(env, rep, tier):
         progress = []
 
         def loop_hook(I_, ctx, h, head, backs, exits):
-            if ctx.body["path"] != ENTRY:
+            if not ctx.body["path"].startswith("packet::"):
                 return
             # some integer place strictly increases on every back edge and is bounded by len(buf)
             leaves = dict(I_.int_leaves(head, keys=[k for k in head.cells if k[0] == ctx.fid]))
@@ -249,6 +280,15 @@ def check(env, rep, tier):
                         break
                 if found:
                     break
+            if found is None:
+                # the shrinking-slice spelling: the remaining input (a slice length, never negative) strictly decreases
+                for name, aff in leaves.items():
+                    if aff.is_const() or name[-1] != ("slen",) or not backs:
+                        continue
+                    if all(dict(I_.int_leaves(b, keys=[name[0]])).get(name) is not None
+                           and b.entails(aff - dict(I_.int_leaves(b, keys=[name[0]]))[name] - 1) for b in backs):
+                        found = (name, "remaining input shrinks")
+                        break
             progress.append((h, found is not None, found))
         I.loop_hooks.append(loop_hook)
         edges = {}
@@ -277,8 +317,9 @@ def check(env, rep, tier):
         I, res = run(prog, body, I=I)
         obs = report_obligations(rep, "C03.1", I, include_cast=True)
         if cfg == "default":
-            n_assert = sum(1 for o in obs if o["kind"].startswith("assert:"))
-            rep.floor("C03.1", "decoder assert sites analysed", n_assert, 20)
+            # panic-capable sites of any kind (compiler-inserted asserts, checked library calls such as
+            # split_at / index): the number depends on the spelling, its being well above zero does not
+            rep.floor("C03.1", "decoder panic-capable sites analysed", len(obs), 12)
         # ---- C03.3 progress
         if not progress:
             rep.missing("C03.3", "decoder loop")
@@ -297,7 +338,7 @@ def check(env, rep, tier):
                    {"file": e["file"], "line": e["line"], "fn": fn},
                    sample={"rule": "C03.5", "fn": fn, "line": e["line"], "justified_by": sorted(e["why"])})
         if cfg == "default":
-            rep.floor("C03.5", "rejecting branches examined", len(edges), 10)
+            rep.floor("C03.5", "rejecting branches examined", len(edges), 4)
         # ---- C03.2 unsafe set
         uf = unsafe_fns(prog)
         reach = set(prog.bodies[b]["path"] for b in I.visited_bodies if b in prog.bodies)
